@@ -214,6 +214,8 @@ class SysRun(object):
                     return _BadDump()
                 if kind == "baddump-lookup":
                     return _BadDumpLookup()
+                if kind == "inf":
+                    return [float("inf"), "a result beyond the range of JSON numbers"]
                 if kind == "selfref":
                     loop = ["a list that contains itself"]
                     loop.append(loop)
@@ -457,6 +459,13 @@ class SysRun(object):
             if kind in ("call", "call2"):
                 val = self._invoke(proxy, op[1], op[2])
                 out = ["value", val]
+            elif kind == "burst":
+                # many exchanges in a row through one proxy (and into its History): a C-implemented callable, judged by value
+                good = 0
+                for i in range(op[2]):
+                    if self._invoke(proxy, op[1], [-i]) == i:
+                        good += 1
+                out = ["burst", good]
             elif kind == "rebind":
                 # the server's owner registers another callable under a name that is already in use
                 self.rebind(op[1], op[2])
@@ -949,6 +958,8 @@ def execute(program, decider, chooser=None, step_cap=120000):
     if program.get("cold"):
         # this run starts from freshly imported modules (as the first request ever served by a process)
         env.cold_start()
+    if program.get("big"):
+        step_cap = max(step_cap, 1500000)  # a few programs are large on purpose (many clients, long batches)
     s = core.Sched(decider, step_cap=step_cap, horizon=FAR * 8 + 2048, chooser=chooser)
     run = SysRun(program, s)
     with env.debug_logging(program.get("debug_log")):
